@@ -20,6 +20,10 @@ CHECKS = {
          "Part 1 explores ALL reachable abstract builder states (len, open-label length) - a complete fixpoint, not a depth bound - executing every operation of the menu on the real NameBuilder in every state (twice, with different fill octets) against an abstract RFC-limit model and an independent wire validator. Part 2 enumerates every presentation string over 11 symbols to length 6/7, boundary-length families, every wire string from a label-length menu, raw octet strings, every index pair for slice/range/split/truncate, and chain() over a length menu, against an independent validator and text/wire round trips.",
          "Builder control flow depends only on (len, open-label length) (checked per transition); strings with unescaped space/quote/'['/non-ASCII are only required to yield valid names.",
          "seqx", "DESIGN.md §3 C03"),
+ "C05": ("exploration", "exhaustive enumeration of per-type products of field boundary menus (shared generator mc::rgen with an independent reference wire form) through compose/parse/canonical/rdlen and six message configurations, plus per-type RDATA byte grammars",
+         "41 generators (every record type incl. SVCB/HTTPS with every SvcParam, IPSECKEY gateways, OPT, unknown types; several constructors per type), full product of per-field boundary menus (u8/u16/u32 boundaries, 4+ names incl. 255 octets, octet fields empty/1/255/type maximum/maximum+1, bitmaps, charstrs): 53 k values quick, 802 k thorough. Per value: compose_rdata == reference encoding written from the RFC layouts; rdlen/compose_len == octets written; canonical form lower-cases exactly the RFC 4034 6.2 + RFC 6840 5.1 names (table in the harness); parse(compose(v)) == v stand-alone, via ZoneRecordData, and in six message configurations (plain/Static/Tree/Hash compressor x names already present or not) where the independent reader checks RDLENGTH and that only RFC 3597 s.4 types carry pointers. 65 byte grammars (every internal length short/exact/long, names literal/pointer/bad): accepted RDATA must satisfy parse(compose(parse(b))) == parse(b). Every EDNS option through OptBuilder/AllOptData.",
+         "Constructor refusals are expected results; values whose RDATA leaves no room for header+owner skip the message check; compose(parse(b)) == b is not demanded.",
+         "gramx", "DESIGN.md §3 C05"),
  "C08": ("model_checking", "exhaustive enumeration of all zone contents x all histories of fixed shapes x all queries on the real in-memory zone, independent RFC 1034/4592 resolver as oracle",
          "All 2,624 zone contents over a 7-name tree (apex, a, b.a, *.a, c, d.c, *) with kinds none/A/TXT/A+TXT/CNAME/NS/NS+DS(+glue), reached through every history shape: ZoneBuilder in two insertion orders, parsed::Zonefile, ZoneUpdater full replacement from a bare and from a busy zone, write interface from a bare zone and via remove_all, and from every single-slot neighbour content a ZoneUpdater edit, a write-interface edit, and a write-interface edit after an abandoned (rolled back) attempt; every (qname,qtype) over 16 names x 6 types plus walk() is compared with a reference resolver written over plain data (exact/CNAME/NODATA incl. ENT/referral with NS, DS, glue/wildcard synthesis/NXDOMAIN, SOA in negative answers, AA).",
          "HashMap order not owned (set comparison, no qtype ANY); CNAMEs are not chased; updater histories run over contents without NS/DS/CNAME because the updater has no cut/CNAME notion (known finding, witnessed); history-dependent mismatches are classified by structural cause and only the listed causes with their implied symptom are known findings.",
